@@ -74,7 +74,7 @@ class LeastSquaresScipyStrategy(HoloPyObject):
             residuals = model._residuals(unscaled_values, data, noise)
             ln_prior = model._lnprior(unscaled_values) - guess_lnprior
             zscore_prior = np.sqrt(2 * -ln_prior)
-            np.append(residuals, zscore_prior)
+            residuals = np.append(residuals, zscore_prior)
             return residuals
 
         # The only work here
